@@ -29,7 +29,7 @@ CHUNK = 10
 # object family
 
 FEATURES = ["tie", "slur", "tuplet", "grace", "repeat", "volta", "nav", "two_parts", "div_change", "staff2", "pickup", "dirs",
-            "overlap", "chord_unequal", "marks", "bare", "open_dirs", "long"]
+            "overlap", "chord_unequal", "marks", "bare", "open_dirs", "long", "empty_part"]
 
 
 def score_spec(feats):
@@ -164,7 +164,11 @@ def score_spec(feats):
                        "sym": {"type": "eighth", "actual_notes": 3, "normal_notes": 2}})
             o2.append({"k": "note", "s": s + 4, "e": s + 12, "id": "b%db" % i, "step": "A", "oct": 2, "voice": 1, "staff": 1})
         p2 = {"id": "P2", "name": "Bass", "divs": [[0, q]], "objs": o2}
-        return {"parts": [{"group": {"symbol": "bracket", "name": "grp", "number": 1}, "children": [p1, p2]}]}
+        kids = [p1, p2] + ([{"id": "P9", "name": "Tacet", "divs": [[0, 4]], "objs": []}] if "empty_part" in f else [])
+        return {"parts": [{"group": {"symbol": "bracket", "name": "grp", "number": 1}, "children": kids}]}
+    if "empty_part" in f:
+        # a part without any time point (last, so that parts[0] stays the part with the music)
+        parts.append({"id": "P9", "name": "Tacet", "divs": [[0, 4]], "objs": []})
     return {"parts": parts}
 
 
@@ -516,7 +520,8 @@ def _add_segments(obj):
 
     sc = obj[0] if isinstance(obj, tuple) else obj
     for p in sc.parts:
-        S.add_segments(p)
+        if len(p._points) > 0:  # (a part without time points has nothing to segment)
+            S.add_segments(p)
 
 
 def _first_diff(a, b):
@@ -743,6 +748,7 @@ def spaces(tier, seed):
                     "and a plain tuple of two independently built parts that share track 0, for the entry points that take a sequence of parts) x all ordered pairs (incl. equal) of %d entry points" % len(names_p)))
     mf = [["tie"], ["tie", "grace", "pickup"], ["staff2", "dirs"], ["marks"], ["marks", "bare"], ["marks", "bare", "grace"]]
     PAIR_BASES[0].count("open_dirs") or PAIR_BASES[0].append("open_dirs")
+    PAIR_BASES[0].count("empty_part") or PAIR_BASES[0].append("empty_part")
     sp.append(Space("match-sequences", [dict(kind="match", feats=f, variant=v, seq=[a, b]) for f in mf for v in ("plain", "pedal", "stale") for a in names_m for b in names_m], True,
                     "6 scores x 3 performances x all ordered pairs of %d entry points" % len(names_m)))
     it = []
